@@ -216,6 +216,10 @@ func (column *ColumnData) SetDataLength(length uint32) {
 
 // parseColumns split whole data row packet into separate columns data
 func (packet *PacketHandler) parseColumns(columnFormats []uint16) error {
+	if packet.descriptionBuf.Len() < 2 {
+		// no room for the column count
+		return ErrInvalidPacketLength
+	}
 	packet.columnCount = int(binary.BigEndian.Uint16(packet.descriptionBuf.Bytes()[:2]))
 
 	if packet.columnCount == 0 {
